@@ -1113,6 +1113,15 @@ func (p *parser) parseBlocks(parent ast.Node, reader text.Reader, pc Context) {
 				// So we do not process paragraphs here.
 				if !ast.IsParagraph(be.Node) {
 					state := be.Parser.Continue(be.Node, reader, pc)
+					if state&Continue != 0 && be.Node.Kind() == ast.KindFencedCodeBlock {
+						// a blank line taken by an open fenced code block is its
+						// content, not a blank line between blocks: if the fence
+						// stays unclosed and ends with its container, what follows
+						// is not "preceded by a blank line"
+						for k := len(blankLines) - 1; k >= 0 && blankLines[k].lineNum == lineNum; k-- {
+							blankLines[k].isBlank = false
+						}
+					}
 					if state&Continue != 0 {
 						// When current node is a container block and has no children,
 						// we try to open new child nodes
